@@ -2,6 +2,7 @@
 # Runs the L0 equivalence families (Java accelerators = normative TLA+ definitions) in parallel.
 # Writes spec/.l0equiv.ok (hash of BigZ.tla + BigZ.java) on success.
 HERE="$(cd "$(dirname "$0")/.." && pwd)"; cd "$HERE"
+exec 7>"${TMPDIR:-/tmp}/.mpir-verif-l0equiv.lock"; flock 7          # one runner at a time (concurrent checks from a cold start)
 H=$(cat spec/BigZ.tla spec/java/tlc2/module/BigZ.java spec/L0Equiv.tla | sha256sum | cut -c1-16)
 [ "$1" != "--force" ] && [ -f spec/.l0equiv.ok ] && [ "$(cat spec/.l0equiv.ok)" = "$H" ] && { echo "L0Equiv: up to date"; exit 0; }
 SCR=${VERIF_SCRATCH:-/var/tmp/mpir-verif-scratch}; mkdir -p "$SCR/l0"
